@@ -768,6 +768,7 @@ class ExcelInPython:
             found_text = find_elem.group(0)
             find_text = find_text.replace('(.*)', '(.)') \
                                  .replace(r'\?', '?') \
+                                 .replace(r'\*', '*') \
                                  .replace(r'\.', '.')
             for sequence in sequences:
                 find_text = find_text.replace('(.)', sequence, 1)
